@@ -454,6 +454,10 @@ theorem mapGroup_interleave (inner : σ → List Item → Step σ Item) (p : Lis
 
 /-! ## 3. Element-specific facts -/
 
+/-! The five `…_state_untouched` theorems below are *free theorems*: the transcribed loop bodies of these elements are
+polymorphic in the state, so they cannot touch it.  They record the modelling decision "this element has no file
+system"; that the real elements write nothing is checked by the directory snapshots of the harness. -/
+
 /-- `ToCSV` never touches the file system (or any other state), whatever the flow -/
 theorem toCSV_state_untouched (cfg : CsvCfg) (xs : List Item) (s : σ) : (toCSVRun cfg s xs).st = s := by
   apply loop_state_const
@@ -638,23 +642,128 @@ theorem pdf_selected_multiset (ow : Bool) (sch : Sched) (fs : FS) (xs : List Ite
   simp only [hok, prodsOf_append, hd]
   simpa [pending] using h
 
+theorem keysOK_of_same_selected {xs xs' : List Item} (hA : xs.filter pdfSel = xs'.filter pdfSel)
+    (hk : KeysOK [] xs) : KeysOK [] xs' := by
+  have e : selTex xs' = selTex xs := by simp [selTex, hA]
+  constructor
+  · simpa [selKeys, e] using hk.nodup
+  · intro t ht; simpa [selKeys, e] using hk.texNotKey t (by rw [← e]; exact ht)
+
+/-- **`LaTeXToPDF`: whether the run raises, and what, is decided by the selected values and the initial file
+system** (`pdfSpecErr`) — for every schedule, whatever is interleaved -/
+theorem pdf_err_determined (ow : Bool) (sch : Sched) (fs : FS) (xs : List Item) (hk : KeysOK [] xs) :
+    (pdfRun ow sch fs xs).err = pdfSpecErr ow fs (xs.filter pdfSel) := by
+  rw [pdfRun_err]
+  exact pdf_loop_err ow sch xs ⟨fs, [], 0, 0⟩ (by simpa using hk)
+
+/-- two flows with the same selected values, any two schedules: the same exception or none -/
+theorem pdf_err_independent (ow : Bool) (sch sch' : Sched) (fs : FS) (xs xs' : List Item)
+    (hA : xs.filter pdfSel = xs'.filter pdfSel) (hk : KeysOK [] xs) :
+    (pdfRun ow sch fs xs).err = (pdfRun ow sch' fs xs').err := by
+  rw [pdf_err_determined ow sch fs xs hk, pdf_err_determined ow sch' fs xs' (keysOK_of_same_selected hA hk), hA]
+
 /-- **`LaTeXToPDF`: what is produced for the selected values does not depend — as a multiset — on the
 interleaved unselected values nor on when the processes end.**  Two flows with the same selected values
-(any unselected values interleaved in any way), two schedules with the same return codes. -/
+(any unselected values interleaved in any way), two schedules with the same return codes; if one of the runs
+ends normally so does the other (`pdf_err_independent`). -/
 theorem pdf_selected_independent (ow : Bool) (sch sch' : Sched) (fs : FS) (xs xs' : List Item)
     (hA : xs.filter pdfSel = xs'.filter pdfSel) (hrc : sch.rc = sch'.rc)
-    (hok : (pdfRun ow sch fs xs).err = none) (hok' : (pdfRun ow sch' fs xs').err = none)
-    (hk : KeysOK [] xs) :
+    (hok : (pdfRun ow sch fs xs).err = none) (hk : KeysOK [] xs) :
+    (pdfRun ow sch' fs xs').err = none ∧
     (prodsOf (pdfRun ow sch fs xs).out).Perm (prodsOf (pdfRun ow sch' fs xs').out) := by
-  have hk' : KeysOK [] xs' := by
-    have e : selTex xs' = selTex xs := by simp [selTex, hA]
-    constructor
-    · simpa [selKeys, e] using hk.nodup
-    · intro t ht; simpa [selKeys, e] using hk.texNotKey t (by rw [← e]; exact ht)
+  have hk' : KeysOK [] xs' := keysOK_of_same_selected hA hk
+  have hok' : (pdfRun ow sch' fs xs').err = none := by
+    rw [← pdf_err_independent ow sch sch' fs xs xs' hA hk]; exact hok
   have h1 := pdf_selected_multiset ow sch fs xs hok hk
   have h2 := pdf_selected_multiset ow sch' fs xs' hok' hk'
   rw [hA, hrc] at h1
-  exact h1.trans h2.symm
+  exact ⟨hok', h1.trans h2.symm⟩
+
+/-- **`LaTeXToPDF`: the file system after the run differs from the one before only at the pdf names of the
+selected values** — for every schedule, whether the run raises or not, whatever unselected values (strings
+naming other files and directories included) are interleaved: nothing they name is created, written or touched -/
+theorem pdf_fs_untouched_elsewhere (ow : Bool) (sch : Sched) (fs : FS) (xs : List Item) (q : String)
+    (hq : q ∉ selKeys xs) : Agree (pdfRun ow sch fs xs).fs fs q := by
+  obtain ⟨h1, h2⟩ := pdf_loop_fs ow sch q xs ⟨fs, [], 0, 0⟩ (by simp) hq
+  unfold pdfRun
+  cases he : (loop (pdfStep ow sch) ⟨fs, [], 0, 0⟩ xs).err with
+  | some e => simpa [he] using h1
+  | none =>
+    have hd := pdfDrain_agree sch q (loop (pdfStep ow sch) ⟨fs, [], 0, 0⟩ xs).st.pool
+      (loop (pdfStep ow sch) ⟨fs, [], 0, 0⟩ xs).st.fs h2
+    simpa [he] using hd.trans h1
+
+/-- in particular a flow without selected values leaves the file system as it was, at every path -/
+theorem pdf_fs_untouched_of_unselected (ow : Bool) (sch : Sched) (fs : FS) (xs : List Item)
+    (hx : ∀ x ∈ xs, pdfSel x = false) (q : String) : Agree (pdfRun ow sch fs xs).fs fs q := by
+  apply pdf_fs_untouched_elsewhere
+  have : xs.filter pdfSel = [] := by
+    rw [List.filter_eq_nil_iff]; intro x hxm; simp [hx x hxm]
+  simp [selKeys, selTex, this]
+
+/-- the full statement — also for runs that end with an exception — is **false of the code**: which results of the
+process pool are out before the exception depends on when the processes end, i.e. on how many values (selected
+or not) were consumed meanwhile -/
+def pdf_failing_run_independent_full : Prop :=
+  ∀ (ow : Bool) (sch sch' : Sched) (fs : FS) (xs xs' : List Item),
+    xs.filter pdfSel = xs'.filter pdfSel → sch.rc = sch'.rc → KeysOK [] xs →
+    (prodsOf (pdfRun ow sch fs xs).out).Perm (prodsOf (pdfRun ow sch' fs xs').out)
+
+/-! ### a used element object (`pdfRunFrom`): the pool left by a run that raised, the launch counter -/
+
+theorem pdfRun_eq_from (ow : Bool) (sch : Sched) (fs : FS) (xs : List Item) :
+    pdfRun ow sch fs xs = (pdfRunFrom ow sch ⟨fs, [], 0, 0⟩ xs).1 := by
+  cases h : (loop (pdfStep ow sch) ⟨fs, [], 0, 0⟩ xs).err <;> simp [pdfRun, pdfRunFrom, h]
+
+/-- **a second (third, …) run of the same `LaTeXToPDF` object**: unselected values still pass as the same
+objects in order, whatever pool the previous run left -/
+theorem pdf_from_unselected_same_objects_in_order (ow : Bool) (sch : Sched) (st : PdfSt) (xs : List Item) :
+    passedOf (pdfRunFrom ow sch st xs).1.out =
+      (xs.take (pdfRunFrom ow sch st xs).1.blocks.length).filter (fun v => !pdfSel v) := by
+  have hl := pdf_loop_passed ow sch xs { st with iter := 0 }
+  unfold pdfRunFrom PdfRun.out
+  cases he : (loop (pdfStep ow sch) { st with iter := 0 } xs).err with
+  | some e => simp [he, passedOf_append, hl, passedOf_nil]
+  | none =>
+    have hd := pdfDrain_prod sch (loop (pdfStep ow sch) { st with iter := 0 } xs).st.pool
+      (loop (pdfStep ow sch) { st with iter := 0 } xs).st.fs
+    simp [he, passedOf_append, hl, hd]
+
+/-- … the exception is decided by the selected values and the file system the run starts with … -/
+theorem pdf_from_err_determined (ow : Bool) (sch : Sched) (st : PdfSt) (xs : List Item)
+    (hk : KeysOK (st.pool.map (·.key)) xs) :
+    (pdfRunFrom ow sch st xs).1.err = pdfSpecErr ow st.fs (xs.filter pdfSel) := by
+  have h := pdf_loop_err ow sch xs { st with iter := 0 } hk
+  unfold pdfRunFrom
+  cases he : (loop (pdfStep ow sch) { st with iter := 0 } xs).err with
+  | some e => simpa [he] using h
+  | none => simpa [he] using h
+
+/-- … and a run that ends normally produces, as a multiset, the results of the processes left over from the
+previous run plus the timing-free description of the selected values (launch numbers continue) -/
+theorem pdf_from_selected_multiset (ow : Bool) (sch : Sched) (st : PdfSt) (xs : List Item)
+    (hok : (pdfRunFrom ow sch st xs).1.err = none) (hk : KeysOK (st.pool.map (·.key)) xs) :
+    (prodsOf (pdfRunFrom ow sch st xs).1.out).Perm
+      (pending sch.rc st.pool ++ pdfSpec ow sch.rc st.fs st.launched (xs.filter pdfSel)) := by
+  have hok' : (loop (pdfStep ow sch) { st with iter := 0 } xs).err = none := by
+    unfold pdfRunFrom at hok
+    cases he : (loop (pdfStep ow sch) { st with iter := 0 } xs).err with
+    | none => rfl
+    | some e => simp [he] at hok
+  have h := pdf_loop_spec ow sch xs { st with iter := 0 } hok' hk
+  have hd := pdfDrain_spec sch (loop (pdfStep ow sch) { st with iter := 0 } xs).st.pool
+    (loop (pdfStep ow sch) { st with iter := 0 } xs).st.fs
+  unfold pdfRunFrom PdfRun.out
+  simp only [hok', prodsOf_append, hd]
+  exact h
+
+/-- a run that ends normally leaves an empty pool; one that raises leaves its processes to the next run -/
+theorem pdf_from_pool_after (ow : Bool) (sch : Sched) (st : PdfSt) (xs : List Item)
+    (hok : (pdfRunFrom ow sch st xs).1.err = none) : (pdfRunFrom ow sch st xs).2.pool = [] := by
+  unfold pdfRunFrom at hok ⊢
+  cases he : (loop (pdfStep ow sch) { st with iter := 0 } xs).err with
+  | none => simp [he]
+  | some e => simp [he] at hok
 
 /-! ## 4b. Pipelines: inserting a selective element never alters values meant for other elements -/
 
@@ -749,9 +858,13 @@ theorem groupPlots_interleave (cfg : GPCfg) (p : List Bool) (A B : List Item) (g
 The theorems above are about value-passing steps.  Python passes references; `sharedStep` (Model) is the
 reference semantics.  For a flow whose values have context objects of their own (`Local`) and a loop body
 that writes only into the context of the value it processes or into objects it made (`CtxLocal`) the two
-agree — so every theorem of this file holds for the reference semantics of `Local` flows.  For flows that
-are not `Local` the property itself fails (examples in section 5; the harness confirms it on the real code:
-cases labelled `alias:`). -/
+agree.  `CtxLocal` is proved for `ToCSV`, `Write`, `RenderLaTeX`, `PDFToPNG`, `HistToGraph`, `IterateBins`,
+`MapBins`, and for `RunIf` under the same hypothesis on its inner sequence (which is arbitrary); it is not proved
+for `MapGroup` (same reason, plus the member contexts it hands to the inner sequence) and not stated for
+`LaTeXToPDF`, whose pool *keeps* context objects between steps (its loop is not a `sharedStep` instance) — for
+these two the reference semantics is covered by the correspondence only.  For flows that are not `Local` the
+property itself fails (examples in section 5; the harness confirms it on the real code: cases labelled
+`alias:`). -/
 
 /-- all context objects of the flow are different source objects -/
 def Local (xs : List Item) : Prop := (ctxToks xs).Nodup ∧ ∀ t ∈ ctxToks xs, ∃ n, t = Tok.src n
@@ -896,6 +1009,65 @@ theorem write_ctxLocal (cfg : WriteCfg) : CtxLocal (writeStep cfg) := by
   all_goals first
     | exact outLocal_nil _ | exact outLocal_self _ | exact outLocal_withDict _ _ | exact outLocal_mk _ _ _ _
 
+theorem iterateBins_ctxLocal (sb : BinKind → Bool) : CtxLocal (iterateBinsStep (σ := σ) sb) := by
+  intro s v
+  show OutLocal v (iterateBinsStep sb s v).out
+  simp only [iterateBinsStep, pass]
+  repeat' split
+  all_goals first
+    | exact outLocal_nil _
+    | exact outLocal_self _
+    | (intro y hy c hc
+       simp only [List.mem_map, List.mem_range] at hy
+       obtain ⟨i, _, rfl⟩ := hy
+       simp only [Option.some.injEq] at hc
+       subst hc
+       exact Or.inr ⟨_, _, rfl⟩)
+
+theorem mapBinsRounds_outLocal (dc : Bool) (v : Item) (h : HistD) (d : Dict) (res : List CellRes) (s : σ) :
+    ∀ (fuel k : Nat) (acc : List Item), OutLocal v acc → OutLocal v (mapBinsRounds dc v h d res s fuel k acc).out
+  | 0, _, acc, ha => by
+    intro y hy
+    simp only [mapBinsRounds, List.mem_reverse] at hy
+    exact ha y hy
+  | fuel + 1, k, acc, ha => by
+    unfold mapBinsRounds
+    split
+    · intro y hy
+      simp only [List.mem_reverse] at hy
+      exact ha y hy
+    · intro y hy
+      simp only [List.mem_reverse] at hy
+      exact ha y hy
+    · apply mapBinsRounds_outLocal dc v h d res s fuel (k + 1)
+      intro y hy c hc
+      simp only [List.mem_cons] at hy
+      rcases hy with rfl | hy
+      · simp only [Option.some.injEq] at hc
+        subst hc
+        exact Or.inr ⟨_, _, rfl⟩
+      · exact ha y hy c hc
+
+theorem mapBins_ctxLocal (sb : BinKind → Bool) (inner : Item → CellRes) (dc : Bool) :
+    CtxLocal (mapBinsStep (σ := σ) sb inner dc) := by
+  intro s v
+  show OutLocal v (mapBinsStep sb inner dc s v).out
+  simp only [mapBinsStep, pass]
+  repeat' split
+  all_goals first
+    | exact outLocal_self _
+    | exact mapBinsRounds_outLocal _ _ _ _ _ _ _ _ _ (outLocal_nil _)
+
+/-- `RunIf`: as local as its inner sequence — a hypothesis on the user's sequence, which is arbitrary -/
+theorem runIf_ctxLocal (select : Item → Bool) (inner : σ → List Item → Step σ Item)
+    (hi : ∀ s v, OutLocal v (inner s [v]).out) : CtxLocal (runIfStep select inner) := by
+  intro s v
+  show OutLocal v (runIfStep select inner s v).out
+  simp only [runIfStep, pass]
+  split
+  · exact hi s v
+  · exact outLocal_self _
+
 /-- consequently: for `Local` flows the interleaving law of `Write` holds under reference semantics too -/
 theorem write_shared_interleave (cfg : WriteCfg) (p : List Bool) (A B : List Item) (fs : FS)
     (hpat : IsPattern p A B) (hB : ∀ b ∈ B, writeSel b = false) (hl : Local (merge p A B)) (hlA : Local A) :
@@ -1019,6 +1191,66 @@ example : (groupPlotsRun exGP [] [exI 0 1, exStr, exI 2 2, exI 4 3]).blocks.map 
     [[], [.src 10], [], []] := by decide +kernel
 example : (groupPlotsRun exGP [] [exI 0 1, exStr, exI 2 2, exI 4 3]).tail.map
     (fun y => match y.data with | .seq _ l => l.length | _ => 0) = [2, 1] := by decide +kernel
+
+-- the full statement about failing runs is false: the same selected values, one flow with a number in front;
+-- the process of `exTex` ends at iteration 2 — reached before `exErr` raises only in the longer flow
+def exErr : Item := ⟨.src 8, .int 5, some ⟨.src 9, [("output", .dict [("filetype", .str "tex")])]⟩⟩
+theorem pdf_failing_run_independent_full_false : ¬ pdf_failing_run_independent_full := by
+  intro h
+  have hk : KeysOK [] [exInt, exTex, exErr] := by
+    constructor
+    · decide +kernel
+    · decide +kernel
+  have := (h false ⟨fun _ => 2, fun _ => 0⟩ ⟨fun _ => 2, fun _ => 0⟩ ⟨[], [], 5⟩ [exInt, exTex, exErr] [exTex, exErr]
+    (by rfl) rfl hk).length_eq
+  revert this
+  decide +kernel
+-- … although the exception itself is the same (`pdf_err_independent`)
+example : (pdfRun false ⟨fun _ => 2, fun _ => 0⟩ ⟨[], [], 5⟩ [exInt, exTex, exErr]).err = some .attributeError ∧
+    (pdfRun false ⟨fun _ => 2, fun _ => 0⟩ ⟨[], [], 5⟩ [exTex, exErr]).err = some .attributeError := by
+  decide +kernel
+-- a used object: the run above leaves nothing / the shorter one leaves its process in the pool
+example : (pdfRunFrom false ⟨fun _ => 2, fun _ => 0⟩ ⟨⟨[], [], 5⟩, [], 0, 0⟩ [exTex, exErr]).2.pool.length = 1 := by
+  decide +kernel
+-- hypotheses of `pdf_selected_independent`: two different interleavings, two schedules with the same return codes
+example : [exTex, exInt, exTex2].filter pdfSel = [exInt, exTex, exInt, exTex2, exInt].filter pdfSel := by rfl
+example : (pdfRun false exSched ⟨[], [], 5⟩ [exTex, exInt, exTex2]).err = none := by decide +kernel
+-- the extension rule (commit 7f5ee11): only the extension is replaced
+example : pdfName "a.tex.d/t1.tex" = "a.tex.d/t1.pdf" ∧ pdfName "x.tex.bak" = "x.pdf.bak" := by decide +kernel
+
+-- `pipeline_interleave` / `pipeAll_passes`: a concrete pipeline ToCSV → Write with its hypotheses
+def exPipe : List ((FS → Item → Step FS Item) × (Item → Bool)) :=
+  [(toCSVStep ⟨true, false⟩, toCSVDoc), (writeStep exCfg, writeDoc)]
+example : ∀ q ∈ exPipe, Passes q.1 q.2 := by
+  intro q hq
+  simp only [exPipe, List.mem_cons, List.mem_singleton, List.not_mem_nil, or_false] at hq
+  rcases hq with rfl | rfl
+  · exact toCSV_passes_doc _
+  · exact write_passes_doc _
+example : ∀ b ∈ [exInt, exOff], ∀ q ∈ exPipe, q.2 b = false := by decide
+example : (pipeRun (exPipe.map (·.1)) exFS [exInt, exHist, exOff]).blocks.map (fun b => b.map (·.tok)) =
+    [[.src 0], [.made (.made (.src 2) 0) 0], [.src 6]] := by decide +kernel
+example : (pipeRun (exPipe.map (·.1)) exFS [exInt, exHist, exOff]).st.files.map (·.path) = ["out/output.csv"] := by
+  decide +kernel
+-- `insert_invisible_after`: what ToCSV yields for `exHist` carries filetype csv, which PDFToPNG does not select
+example : ∀ y ∈ (toCSVStep (σ := FS) ⟨true, false⟩ exFS exHist).out, pngSel y = false := by decide
+-- `runIf_interleave` with a stateful inner sequence (a counter kept between calls), `mapGroup_interleave`,
+-- `mapBins_interleave`: selected and unselected values for them
+def exIsInt (v : Item) : Bool := match v.data with | .int _ => true | _ => false
+example : exIsInt exInt = true ∧ exIsInt exStr = false := by decide
+example : (runIfRun exIsInt (innerApply .count) (⟨exFS, 0⟩ : World) [exI 0 5, exStr, exI 2 6]).blocks.map
+    (fun b => b.map (fun y => match y.data with | .seq _ (.int n :: _) => n | _ => -1)) = [[0], [-1], [1]] := by
+  decide +kernel
+def exGroup : Item := ⟨.src 0, .seq false [.int 1, .int 2], some ⟨.src 1, [("group", .list [.dict [], .dict []])]⟩⟩
+example : mapGroupSel exGroup = true ∧ mapGroupSel exInt = false ∧ mapGroupSel exStr = false := by decide
+example : (mapGroupRun (innerApply .dup) (⟨exFS, 0⟩ : World) [exStr, exGroup]).blocks.map (·.length) = [1, 2] := by
+  decide +kernel
+example : mapBinsSel (fun k => k == .vec) exBad = true ∧ mapBinsSel (fun k => k == .vec) exHist = false := by decide
+example : (mapBinsRun (fun k => k == .vec) (cellInnerApply .dup) true () [exHist, exBad]).blocks.map
+    (fun b => b.map (·.tok)) = [[.src 2], [.made (.src 4) 0, .made (.src 4) 2]] := by decide +kernel
+-- `write_shared_interleave`: `Local (merge p A B)` and `Local A` hold for values with contexts of their own
+example : Local (merge [false, true] [exSharedA] [exOwnB]) ∧ Local [exSharedA] :=
+  ⟨local_of_localB _ (by decide), local_of_localB _ (by decide)⟩
 
 end examples
 
